@@ -11,6 +11,7 @@ import (
 	"math/big"
 
 	coretypes "github.com/artela-network/aspect-core/types"
+	ethvm "github.com/ethereum/go-ethereum/core/vm"
 	"google.golang.org/protobuf/proto"
 
 	"github.com/ethereum/go-ethereum/common"
@@ -124,7 +125,8 @@ func (s *verifStateDB) AddressInAccessList(a common.Address) bool {
 	return verifUFBool("AddressInAccessList", s.epoch(), a[:])
 }
 func (s *verifStateDB) SlotInAccessList(a common.Address, k common.Hash) (bool, bool) {
-	return verifUFBool("SlotInAccessListA", s.epoch(), a[:]), verifUFBool("SlotInAccessListS", s.epoch(), a[:], k[:])
+	// host invariant (EIP-2929): an address whose code executes is in the access list
+	return true, verifUFBool("SlotInAccessListS", s.epoch(), a[:], k[:])
 }
 func (s *verifStateDB) AddAddressToAccessList(a common.Address) {
 	s.emit(verifEvent{kind: "AddAddressToAccessList", addr: a})
@@ -383,4 +385,49 @@ func (l *verifSnapLogger) CaptureState(pc uint64, op OpCode, gas, cost uint64, s
 	st := make([]uint256.Int, len(scope.Stack.data))
 	copy(st, scope.Stack.data)
 	l.snaps = append(l.snaps, verifSnap{pc: pc, op: op, gas: gas, cost: cost, stack: st, mem: common.CopyBytes(scope.Memory.store), err: err})
+}
+
+// verifFrameHook replaces the six frame routines when a step harness only wants
+// the opcode handler's glue (the routines themselves have their own harnesses).
+var verifFrameHook func(kind OpCode, caller ContractRef, addr common.Address, input []byte, gas uint64, value *big.Int) ([]byte, common.Address, uint64, error)
+
+func (evm *EVM) Call(ctx context.Context, caller ethvm.ContractRef, addr common.Address, input []byte, gas uint64, value *big.Int) (ret []byte, leftOverGas uint64, err error) {
+	if verifFrameHook != nil {
+		ret, _, leftOverGas, err = verifFrameHook(CALL, caller, addr, input, gas, value)
+		return
+	}
+	return evm.verifRealCall(ctx, caller, addr, input, gas, value)
+}
+func (evm *EVM) CallCode(ctx context.Context, caller ContractRef, addr common.Address, input []byte, gas uint64, value *big.Int) (ret []byte, leftOverGas uint64, err error) {
+	if verifFrameHook != nil {
+		ret, _, leftOverGas, err = verifFrameHook(CALLCODE, caller, addr, input, gas, value)
+		return
+	}
+	return evm.verifRealCallCode(ctx, caller, addr, input, gas, value)
+}
+func (evm *EVM) DelegateCall(ctx context.Context, caller ContractRef, addr common.Address, input []byte, gas uint64) (ret []byte, leftOverGas uint64, err error) {
+	if verifFrameHook != nil {
+		ret, _, leftOverGas, err = verifFrameHook(DELEGATECALL, caller, addr, input, gas, nil)
+		return
+	}
+	return evm.verifRealDelegateCall(ctx, caller, addr, input, gas)
+}
+func (evm *EVM) StaticCall(ctx context.Context, caller ContractRef, addr common.Address, input []byte, gas uint64) (ret []byte, leftOverGas uint64, err error) {
+	if verifFrameHook != nil {
+		ret, _, leftOverGas, err = verifFrameHook(STATICCALL, caller, addr, input, gas, nil)
+		return
+	}
+	return evm.verifRealStaticCall(ctx, caller, addr, input, gas)
+}
+func (evm *EVM) Create(ctx context.Context, caller ContractRef, code []byte, gas uint64, value *big.Int) (ret []byte, contractAddr common.Address, leftOverGas uint64, err error) {
+	if verifFrameHook != nil {
+		return verifFrameHook(CREATE, caller, common.Address{}, code, gas, value)
+	}
+	return evm.verifRealCreate(ctx, caller, code, gas, value)
+}
+func (evm *EVM) Create2(ctx context.Context, caller ContractRef, code []byte, gas uint64, endowment *big.Int, salt *uint256.Int) (ret []byte, contractAddr common.Address, leftOverGas uint64, err error) {
+	if verifFrameHook != nil {
+		return verifFrameHook(CREATE2, caller, common.Address{}, code, gas, endowment)
+	}
+	return evm.verifRealCreate2(ctx, caller, code, gas, endowment, salt)
 }
